@@ -2,6 +2,7 @@ package main
 
 import (
 	"fmt"
+	"go/types"
 	"strings"
 
 	"golang.org/x/tools/go/ssa"
@@ -15,8 +16,8 @@ import (
 
 type LoopOpts struct {
 	AllowErrReturn bool
-	MaxOtherExits  int // exits that are neither header, panic nor error return (reviewed `break`s); default 0
-	Outermost      bool // take the OUTERMOST loop around the call (default: innermost)
+	MaxOtherExits  int      // exits that are neither header, panic nor error return (reviewed `break`s); default 0
+	Outermost      bool     // take the OUTERMOST loop around the call (default: innermost)
 	RangesOver     []string // atoms the loop bound (the header condition) must contain, e.g. "param:events"
 }
 
@@ -318,6 +319,108 @@ func (r *Report) IteratorLoopCensus(key string, prefixes []string, allowed map[s
 				r.OK(k, d, w.posOr(ifi.Cond.Pos(), fn), "reviewed early stop: "+allowed[fk])
 			default:
 				r.Bad(k, d, w.posOr(ifi.Cond.Pos(), fn), fmt.Sprintf("the iterator loop of %s can stop before the iterator is exhausted (%v; bare Valid() header: %v): entries behind the stop are never seen", fk, early, bare))
+			}
+		}
+	}
+	// an iterator whose Valid() is tested outside any loop is looked at once: a walk that lost its back edge (an
+	// unconditional break/return at the end of the body) or a deliberate "first entry only" read, which must be reviewed
+	for _, fk := range sortedKeys(w.Funcs) {
+		ok := false
+		for _, p := range prefixes {
+			if strings.HasPrefix(fk, p) {
+				ok = true
+			}
+		}
+		fn := w.Funcs[fk]
+		if !ok || len(fn.Blocks) == 0 || !inRepoScope(fn) {
+			continue
+		}
+		loops := naturalLoops(fn)
+		for _, b := range fn.Blocks {
+			ifi := ifOf(b)
+			if ifi == nil {
+				continue
+			}
+			isIter := false
+			for a := range Render(ifi.Cond).Atoms() {
+				if strings.HasPrefix(a, "call:github.com/cosmos/cosmos-db.") && strings.HasSuffix(a, ".Valid") {
+					isIter = true
+				}
+			}
+			if !isIter {
+				continue
+			}
+			inLoop := false
+			for _, l := range loops {
+				if l[b] {
+					inLoop = true
+				}
+			}
+			if inLoop {
+				continue
+			}
+			w.SitesExamined++
+			k := fmt.Sprintf("%s|%s|single-look@b%d", key, fk, b.Index)
+			if allowed[fk] != "" {
+				seenAllowed[fk] = true
+				r.OK(k, d, w.posOr(ifi.Cond.Pos(), fn), "reviewed: "+allowed[fk])
+			} else {
+				r.Bad(k, d, w.posOr(ifi.Cond.Pos(), fn), fmt.Sprintf("%s tests iterator.Valid() outside any loop: at most one entry is ever visited (a loop whose body ends in an unconditional break or return?)", fk))
+			}
+		}
+	}
+	// the same for iterations driven by a callback (`Iterate…(ctx, func(…) (stop bool))`): the callback never asks to stop
+	for _, fk := range sortedKeys(w.Funcs) {
+		ok := false
+		for _, p := range prefixes {
+			if strings.HasPrefix(fk, p) {
+				ok = true
+			}
+		}
+		fn := w.Funcs[fk]
+		if !ok || len(fn.Blocks) == 0 || !inRepoScope(fn) || fn.Parent() != nil {
+			continue
+		}
+		for _, b := range fn.Blocks {
+			for _, in := range b.Instrs {
+				ci, isCall := in.(ssa.CallInstruction)
+				if !isCall || !strings.HasPrefix(lastName(CalleeName(ci.Common())), "Iterate") {
+					continue
+				}
+				for _, a := range ci.Common().Args {
+					var cb *ssa.Function
+					switch x := a.(type) {
+					case *ssa.MakeClosure:
+						cb, _ = x.Fn.(*ssa.Function)
+					case *ssa.Function:
+						cb = x
+					}
+					if cb == nil || len(cb.Blocks) == 0 || cb.Signature.Results().Len() != 1 {
+						continue
+					}
+					if bt, isB := cb.Signature.Results().At(0).Type().Underlying().(*types.Basic); !isB || bt.Kind() != types.Bool {
+						continue
+					}
+					w.SitesExamined++
+					stops := 0
+					for _, cbb := range cb.Blocks {
+						if rt := returnOf(cbb); rt != nil && cbb != cb.Recover {
+							if cv, isC := retValue(rt, 0).(*ssa.Const); !isC || constString(cv) != "false" {
+								stops++
+							}
+						}
+					}
+					k := fmt.Sprintf("%s|%s|callback of %s", key, fk, lastName(CalleeName(ci.Common())))
+					switch {
+					case stops == 0:
+						r.OK(k, d, w.posOr(ci.Pos(), fn), "the callback always returns false (never stops the iteration)")
+					case allowed[fk] != "":
+						seenAllowed[fk] = true
+						r.OK(k, d, w.posOr(ci.Pos(), fn), "reviewed early stop: "+allowed[fk])
+					default:
+						r.Bad(k, d, w.posOr(ci.Pos(), fn), fmt.Sprintf("the callback %s passes to %s can return true (= stop): the entries behind the stop are never visited", fk, lastName(CalleeName(ci.Common()))))
+					}
+				}
 			}
 		}
 	}
